@@ -40,8 +40,8 @@ fn set_nonblock(fd: i32) {
 ///
 /// `ids = Some((uid, gid))` (only meaningful when the driver is root): the probe is started by
 /// fork + setgid + setuid + execve instead of posix_spawn, so that AT_UID and AT_GID are two
-/// different non-zero numbers.
-pub fn run(path: &str, argv: &[Vec<u8>], envp: &[Vec<u8>], stdin: &[u8], limit: Duration, ids: Option<(u32, u32)>) -> Result<Outcome, LaunchError> {
+/// different non-zero numbers. With `egid` the effective ids differ from the real ones as well.
+pub fn run(path: &str, argv: &[Vec<u8>], envp: &[Vec<u8>], stdin: &[u8], limit: Duration, ids: Option<(u32, u32)>, egid: Option<u32>) -> Result<Outcome, LaunchError> {
     let cpath = CString::new(path).expect("probe path");
     let cargs: Vec<CString> = argv.iter().map(|a| CString::new(a.clone()).expect("NUL in argument")).collect();
     let cenv: Vec<CString> = envp.iter().map(|a| CString::new(a.clone()).expect("NUL in env entry")).collect();
@@ -67,7 +67,14 @@ pub fn run(path: &str, argv: &[Vec<u8>], envp: &[Vec<u8>], stdin: &[u8], limit: 
                 if libc::dup2(in_r, 0) < 0 || libc::dup2(out_w, 1) < 0 || libc::dup2(err_w, 2) < 0 {
                     e = *libc::__errno_location();
                 }
-                if e == 0 && (libc::setgroups(0, core::ptr::null()) != 0 || libc::setgid(gid) != 0 || libc::setuid(uid) != 0) {
+                if let Some(egid) = egid {
+                    // real ids differ from the effective ones (as under a set-id program): real uid/gid
+                    // as generated, effective gid another number, effective uid stays 0 so that the
+                    // probe can still read its own /proc/self/auxv
+                    if e == 0 && (libc::setgroups(0, core::ptr::null()) != 0 || libc::setresgid(gid, egid, egid) != 0 || libc::setresuid(uid, 0, 0) != 0) {
+                        e = *libc::__errno_location();
+                    }
+                } else if e == 0 && (libc::setgroups(0, core::ptr::null()) != 0 || libc::setgid(gid) != 0 || libc::setuid(uid) != 0) {
                     e = *libc::__errno_location();
                 }
                 if e == 0 {
